@@ -2,7 +2,7 @@
 """Module containing single user channels. """
 
 import math
-from typing import List, Optional, Union
+from typing import List, Optional, Tuple, Union
 
 import numpy as np
 
@@ -79,6 +79,10 @@ class SuChannel:
         # Path loss which will be multiplied by the impulse response when
         # corrupt_data is called
         self._pathloss_value: Optional[float] = None
+        # Impulse response (without path loss) of the last transmission and
+        # the path loss that was in force in that transmission
+        self._last_transmission: Optional[Tuple[fading.TdlImpulseResponse,
+                                                Optional[float]]] = None
 
     def set_pathloss(self, pathloss_value: Optional[float] = None) -> None:
         """
@@ -144,6 +148,9 @@ class SuChannel:
         # output = super().corrupt_data(signal)
         output = self._tdlchannel.corrupt_data(signal)
 
+        self._last_transmission = (
+            self._tdlchannel.get_last_impulse_response(),
+            self._pathloss_value)
         if self._pathloss_value is not None:
             # noinspection PyTypeChecker
             output *= math.sqrt(self._pathloss_value)
@@ -188,6 +195,9 @@ class SuChannel:
         output = self._tdlchannel.corrupt_data_in_freq_domain(
             signal, fft_size, carrier_indexes)
 
+        self._last_transmission = (
+            self._tdlchannel.get_last_impulse_response(),
+            self._pathloss_value)
         if self._pathloss_value is not None:
             # noinspection PyTypeChecker
             output *= math.sqrt(self._pathloss_value)
@@ -207,11 +217,19 @@ class SuChannel:
             The impulse response of the channel that was used to corrupt
             the last data.
         """
-        if self._pathloss_value is None:
-            return self._tdlchannel.get_last_impulse_response()
+        impulse_response = self._tdlchannel.get_last_impulse_response()
+        pathloss_value = self._pathloss_value
+        if (self._last_transmission is not None
+                and self._last_transmission[0] is impulse_response):
+            # This impulse response was used by `corrupt_data`: the path
+            # loss of that transmission applies, even if `set_pathloss` was
+            # called again since then (for the next transmission)
+            pathloss_value = self._last_transmission[1]
 
-        return math.sqrt(self._pathloss_value) * \
-            self._tdlchannel.get_last_impulse_response()
+        if pathloss_value is None:
+            return impulse_response
+
+        return math.sqrt(pathloss_value) * impulse_response
 
     @property
     def switched_direction(self) -> bool:
